@@ -3,7 +3,7 @@
 import ast
 
 from ..report import rule
-from .. import norm, cfg as cfgmod
+from .. import norm, cfg as cfgmod, guards
 from ..traces import Tracer, fmt, first_index, last_index
 from ..model import AnalysisError
 from .common import calls_of, writer_classes, find_calls, bind_args, returns_of
@@ -188,12 +188,14 @@ def c04_r2(ctx):
     # __exit__
     ex = prog.method("writing.IndexWriter", "__exit__", inherited=False)
     ctx.saw(ex)
-    ok = False
-    for st in ex.node.body:
-        if isinstance(st, ast.If) and norm.canon(st.test) == "exc_type":
-            t_calls = [norm.canon(c) for s in st.body for c in norm.calls_in(s)]
-            f_calls = [norm.canon(c) for s in st.orelse for c in norm.calls_in(s)]
-            ok = t_calls == ["self.cancel()"] and f_calls == ["self.commit()"]
+    fx = guards.Facts(ex)
+    sites = {}
+    for n_ in fx.g.nodes:
+        for frag in cfgmod.node_exprs(n_):
+            for c in norm.calls_in(frag):
+                if norm.canon(c) in ("self.cancel()", "self.commit()"):
+                    sites.setdefault(norm.canon(c), []).append(sorted(fx.at(n_) or []))
+    ok = len(ex.params) > 1 and sites == {"self.cancel()": [[("T", ex.params[1])]], "self.commit()": [[("F", ex.params[1])]]}
     ctx.ob(ex, ok, "with-block: cancel() when an exception is propagating, commit() otherwise")
     for c in writer_classes(prog):
         e2 = prog.lookup(c, "__exit__")
